@@ -465,7 +465,12 @@ class UTPM(Ring, RawAlgorithmsMixIn):
         return self * rhs
 
     def __rtruediv__(self, rhs):
-        tmp = self.zeros_like()
+        # constant polynomial with the broadcast shape and the promoted dtype of rhs and self
+        rhs = numpy.asarray(rhs)
+        D,P = self.data.shape[:2]
+        shp = numpy.broadcast_shapes(rhs.shape, self.data.shape[2:])
+        dtype = numpy.promote_types(self.data.dtype, rhs.dtype)
+        tmp = UTPM(numpy.zeros((D,P) + shp, dtype=dtype))
         tmp.data[0,...] = rhs
         return tmp/self
 
